@@ -16,6 +16,7 @@ import (
 	"harness/sim"
 
 	"github.com/welllog/golib/randz"
+	"github.com/welllog/golib/zzsim/core"
 	"github.com/welllog/golib/zzsim/scrand"
 	"github.com/welllog/golib/zzsim/smrand"
 	"github.com/welllog/golib/zzsim/stime"
@@ -95,6 +96,7 @@ func exec(c *sim.Case, out *sim.WorkerOut) (*sim.Violation, bool) {
 	p := c.Params
 	dg := engc.NewDigest()
 	r := sim.NewRng(c.EnvSeed)
+	core.EnvSeed(c.EnvSeed ^ 0x5eed) // entropy and math/rand draws of this case depend on the case alone
 	scrand.Reset()
 	smrand.Word = nil
 	smrand.Words = 0
